@@ -746,6 +746,7 @@ func main() {
 	f.WriteString("-- GENERATED by harness/cmd/extract from /repo's working tree. Do not edit.\nnamespace Wl2k.Gen\n\n")
 	ag := loadPkg(filepath.Join(repo, "transport/ax25/agwpe"))
 	f.WriteString(leanStrList("agwpeFrameReadFromCalls", callsIn(ag.funcDecl("frame.ReadFrom"))))
+	f.WriteString(agwpeFacts(ag))
 	tn := loadPkg(filepath.Join(repo, "transport/telnet"))
 	f.WriteString(leanStrList("telnetDialContextCalls", callsIn(tn.funcDecl("DialContext"))))
 	f.WriteString(leanStrList("telnetAcceptCalls", callsIn(tn.funcDecl("listener.Accept"))))
